@@ -9,7 +9,7 @@ split into (1) "the model computes this literal tableau" and (2) "the literal ta
 the combined statements (`basic_gate_table`, …) are derived from the two.
 -/
 import NumqiProofs.CliffordLemmas
-import NumqiModel.SpF2
+import NumqiProofs.CliffordAlgebra
 
 namespace Numqi.C07
 open Numqi Numqi.Clifford
@@ -114,30 +114,59 @@ theorem embedded_gate_table (key : GateKey) (t : Tab) (ht : basicDaggerF2 key = 
   rw [List.all_eq_true] at h3
   exact h3 p hp
 
-/-! ### composition rule = sequential application -/
+/-! ### phase-exact automorphism, composition rule, circuits — for every number of qubits -/
 
-/-- the full statement: for tableaux of equal size with symplectic `S_y`, whenever `clifford_multiply` returns,
-applying the product equals applying `x` and then `y` -/
-def MultiplyApply.Statement : Prop :=
-  ∀ (x y z : Tab) (p : PauliB), x.n = y.n → multiply x y = some z →
-    SpF2.isSp y.n ((List.range (2 * y.n)).map fun a =>
-      SpF2.ofFn (2 * y.n) fun j => (y.cols.getD j 0).testBit a) = true →
-    x.cols.length = 2 * x.n → (∀ c ∈ x.cols, c < 4 ^ x.n) → p.v < 4 ^ x.n →
-    applyOnPauli p z = applyOnPauli (applyOnPauli p x) y
+/-- **Every `(r, S)` with `S` symplectic acts as a phase-exact homomorphism of the Pauli group**:
+`apply(P·Q) = apply(P)·apply(Q)` on the binary forms, for every `n`, every phase vector `r`, all phased Paulis.
+(`mulB` is the product of C08, see `mulB_is_C08_mul`; `colSp` is `Sᵀ Λ S = Λ`.) -/
+theorem apply_hom (t : Tab) (h : t.colSp = true) (a b : PauliB) :
+    applyOnPauli (mulB t.n a b) t = mulB t.n (applyOnPauli a t) (applyOnPauli b t) :=
+  apply_mulB t h a b
+
+/-- the product on binary forms used in `apply_hom` is `PauliOperator.__matmul__` as modelled (and proved to be the
+matrix product, phase included) in C08 -/
+theorem mulB_is_C08_mul (n : Nat) (a b : PauliB) : toPauli n (mulB n a b) = (toPauli n a).mul (toPauli n b) :=
+  toPauli_mulB n a b
+
+/-- **Composition rule = sequential application**, every `n`: whenever `clifford_multiply(x, y)` returns `z` for
+tableaux of equal size with `S_y` symplectic, `apply(P, z) = apply(apply(P, x), y)` for every phased Pauli, phase included. -/
+theorem multiply_apply (x y z : Tab) (h : multiply x y = some z) (hn : x.n = y.n) (hy : y.colSp = true) (p : PauliB) :
+    applyOnPauli p z = applyOnPauli (applyOnPauli p x) y :=
+  multiply_apply_all h hn hy p
+
+/-- the identity tableau (start value of `to_symplectic_form`) fixes every Pauli of the right length -/
+theorem apply_identity (n : Nat) (p : PauliB) (hp : p.v < 4 ^ n) : applyOnPauli p (Tab.id n) = p := apply_id n p hp
+
+/-- **The tableau of a circuit acts as its gates one after the other** (last gate first: `U† P U`, `U = g_L ⋯ g_1`),
+for every gate list on any number of qubits, provided the embedded gate tableaux are symplectic
+(`embedded_colSp_table` discharges this for registers of up to 6 qubits). -/
+theorem circuit_sequential (gates : List Gate) (t : Tab) (h : symplecticOf gates = .ok t) :
+    ∃ n, numQubit gates = .ok n ∧ t.n = n ∧
+      ((∀ g ∈ gates, ∀ loc, basicDaggerF2 g.key = some loc → (embed n loc g.idx).colSp = true) →
+        ∀ p, applyOnPauli p t = gates.reverse.foldl (gateAct n) (applyOnPauli p (Tab.id n))) :=
+  symplecticOf_sequential gates t h
+
+private theorem colSp_lit : ([1, 2, 3, 4, 5, 6] : List Nat).all (fun n => GateKey.all.all fun key =>
+    (placements n key.arity).all fun qs => (embed n (dagTable key) qs).colSp) = true := by
+  decide +kernel
+
+/-- the hypothesis of `circuit_sequential` for registers of 1…6 qubits: every placed gate tableau is symplectic -/
+theorem embedded_colSp_table (n : Nat) (hn : n ∈ ([1, 2, 3, 4, 5, 6] : List Nat)) (key : GateKey) (loc : Tab)
+    (hl : basicDaggerF2 key = some loc) (qs : List Nat) (hqs : qs ∈ placements n key.arity) :
+    (embed n loc qs).colSp = true := by
+  rw [basicDaggerF2_eq] at hl
+  cases hl
+  have h := colSp_lit
+  rw [List.all_eq_true] at h
+  have h2 := h n hn
+  rw [List.all_eq_true] at h2
+  have h3 := h2 key (by cases key <;> decide)
+  rw [List.all_eq_true] at h3
+  exact h3 qs hqs
 
 /-- all 24 one-qubit tableaux: Sp(2,F2) (enumerated by `from_int_tuple`) × all 4 phase vectors -/
 def tabs1 : List Tab :=
   ((SpF2.allTuples 1).map SpF2.fromIntTuple).flatMap fun S => (List.range 4).map fun r => ⟨1, r, S⟩
-
-def mulOK (ps : List PauliB) (x y : Tab) : Bool :=
-  match multiply x y with
-  | none => false
-  | some z => ps.all fun p => applyOnPauli p z == applyOnPauli (applyOnPauli p x) y
-
-/-- the proved fragment: one qubit, complete — all of Sp(2,F2) × all phase vectors for both factors, all 16 Paulis -/
-theorem multiply_apply_partial :
-    tabs1.all (fun x => tabs1.all (fun y => mulOK (allPaulis 1) x y)) = true := by
-  decide +kernel
 
 /-! ### the hypotheses are satisfiable, the statements are not vacuous -/
 
@@ -150,5 +179,12 @@ example : run St.init [.query, .append .CX [0, 0], .append .X [-1], .exportCirc]
 example : applyOnPauli ⟨false, false, 1⟩ (dagTable .H) = ⟨false, false, 2⟩ ∧
     applyOnPauli ⟨false, true, 3⟩ (dagTable .H) = ⟨true, true, 3⟩ := by decide
 example : tabs1.length = 24 ∧ (allPaulis 2).length = 64 ∧ (placements 2 2).length = 2 := by decide +kernel
+/-- the hypotheses of `apply_hom` / `multiply_apply` hold for all 24 one-qubit tableaux, and `clifford_multiply` returns on them -/
+example : tabs1.all (fun x => x.colSp && tabs1.all fun y => (multiply x y).isSome) = true := by decide +kernel
+/-- a non-symplectic matrix is rejected by `colSp` -/
+example : Tab.colSp ⟨1, 0, [1, 1]⟩ = false := by decide
+/-- `X·Z = -iY` on the binary form -/
+example : mulB 1 ⟨false, false, 1⟩ ⟨false, false, 2⟩ = ⟨false, false, 3⟩ ∧
+    mulB 1 ⟨false, false, 2⟩ ⟨false, false, 1⟩ = ⟨true, false, 3⟩ := by decide
 
 end Numqi.C07
